@@ -70,6 +70,11 @@ theorem C12_run_structure :
     Gen.Constants.RUN_LOOP_BODY = "execute_iteration" ∧ Gen.Constants.TERM_ESS_CMP = "lt_n_total" ∧
     Gen.Constants.RUN_EPILOGUE_Z1 = 1 := by decide
 
+/-- regenerated from `_not_termination`: the ESS of the loop guard is computed from `compute_logw_and_logz(1.0)`, i.e. from the
+    posterior (beta = 1) weights over the whole history, with the temperature passed explicitly -/
+theorem C12_gen_guard_weights_at_one : Gen.Constants.GUARD_WEIGHTS_AT_ONE = 1 := by decide
+
+
 /-- C12 (run): if `run` returns, then 1 − β < 1.0001e-4 (the double 1e-4), the ESS of the posterior
     weights over the whole history is at least `n_total`, and the stored evidence is the
     mixture-importance-sampling evidence at β = 1 recomputed from the final history. -/
